@@ -10,6 +10,8 @@ from fractions import Fraction
 
 import numpy as np
 
+from pwlib.share import shcopy
+
 from pwlib import gens
 from pwlib.canon import compare as canon_compare
 from pwlib.engine import Case
@@ -21,13 +23,13 @@ COUNTERS = {"refactor_tolerant_matches": 0, "strict_matches": 0, "kinds": {}}
 
 def slice_impl(V, F, o, n, mask, ret_map=True):
     from polliwog.plane import slice_triangles_by_plane
-    return slice_triangles_by_plane(V.copy(), F.copy(), o.copy(), n.copy(),
+    return slice_triangles_by_plane(shcopy(V), shcopy(F), shcopy(o), shcopy(n),
                                     faces_to_slice=None if mask is None else mask.copy(), ret_face_mapping=ret_map)
 
 
 def arrays(spec):
-    V = np.array(spec["verts"], dtype=np.float64).reshape(-1, 3)
-    F = np.array(spec["faces"], dtype=np.int64).reshape(-1, 3)
+    V = np.array(np.reshape(spec["verts"], (-1, 3)), dtype=np.float64)
+    F = np.array(np.reshape(spec["faces"], (-1, 3)), dtype=np.int64)
     o = np.array(spec["o"], dtype=np.float64)
     n = np.array(spec["n"], dtype=np.float64)
     mask = None if spec.get("mask") is None else np.array(spec["mask"], dtype=bool)
@@ -70,7 +72,7 @@ def abstract_compare(res, model_line, scale, rtol):
     v = np.array(it[1:1 + 3 * nv]).reshape(-1, 3)
     j = 1 + 3 * nv
     nf = it[j]
-    f = np.array(it[j + 1:j + 1 + 3 * nf], dtype=int).reshape(-1, 3)
+    f = np.array(np.reshape(it[j + 1:j + 1 + 3 * nf], (-1, 3)), dtype=int)
     j += 1 + 3 * nf
     m = it[j + 1:j + 1 + it[j]]
     mv, mf, mm = parse_model(model_line)
@@ -201,14 +203,24 @@ def float_spec(rng, max_faces=40):
     nmag = 10.0 ** rng.uniform(-3, 3)
     n = np.array(gens.unit(rng)) * nmag
     o = np.array(gens.fvec(rng, s))
+    # far from the origin: the mesh and the plane's reference point share a large offset (up to 1e7 times the size of the
+    # mesh).  n.(v - o) is then still accurate to a few ulps of the *local* size, while n.v - n.o is not.
+    # The offset S is drawn so that one ulp of S times |n| is around the merge tolerance (S * |n| in 1e6.5 .. 1e9.5).
+    far = rng.random() < 0.4
+    if far:
+        S = 10.0 ** rng.uniform(6.5, 9.5) / nmag
+        far = 1e2 * s <= S <= 1e9 * s
+        if far:
+            o = o + np.array(gens.unit(rng)) * S
     V = []
-    near = rng.random() < 0.4
+    near = rng.random() < (0.8 if far else 0.4)
     for _ in range(nv):
         r = rng.random()
         p = np.array(gens.fvec(rng, s)) + o
         if near and r < 0.35:
             # within the merge tolerance of the plane (offset in units of |normal| as the code measures it)
-            want = rng.choice([-0.6, -0.3, 0.0, 0.3, 0.6]) * TOL
+            # ... or (half of the time, far from the origin) a small multiple of it beyond
+            want = rng.choice([-0.6, -0.3, 0.0, 0.3, 0.6] + ([-3000.0, -300.0, -30.0, -3.0, 3.0, 30.0, 300.0, 3000.0] if far else [])) * TOL
             d = float(np.dot(n, p - o))
             p = p - n * (d - want) / float(np.dot(n, n))
         V.append(p.tolist())
@@ -220,7 +232,7 @@ def float_spec(rng, max_faces=40):
     nf = rng.randint(1, max_faces)
     F = [[rng.randrange(nv) for _ in range(3)] for _ in range(nf)]
     mask = None if rng.random() < 0.5 else [rng.random() < 0.7 for _ in range(nf)]
-    return {"op": "mesh", "stream": "float-near" if near else "float", "verts": V, "faces": F, "o": o.tolist(),
+    return {"op": "mesh", "stream": ("float-near" if near else "float") + ("-far" if far else ""), "verts": V, "faces": F, "o": o.tolist(),
             "n": n.tolist(), "mask": mask, "rtol": 1e-5 if near else 1e-7, "kernel_faces": 6}
 
 
@@ -237,7 +249,7 @@ def gen_specs(rng, tier):
         for _ in range(120):
             yield lattice_spec(rng)
         k = 0
-        while k < 80:
+        while k < 160:
             sp = float_spec(rng)
             if sp:
                 k += 1
